@@ -21,6 +21,7 @@ type balanceCache struct {
 	mu          sync.Mutex
 	expireAfter time.Duration
 	cache       map[store.Account]balanceItem
+	sets        uint64           // Number of values stored, lets Get notice a Set that overtook it
 	nowFn       func() time.Time // For testing override
 }
 
@@ -41,6 +42,12 @@ func (b *balanceCache) Reset(expireAfter time.Duration) {
 func (b *balanceCache) Set(account store.Account, amount *big.Int) {
 	b.mu.Lock()
 	defer b.mu.Unlock()
+	b.set(account, amount)
+}
+
+// set stores the amount, the caller must hold the lock.
+func (b *balanceCache) set(account store.Account, amount *big.Int) {
+	b.sets++
 	if b.cache == nil {
 		b.cache = map[store.Account]balanceItem{}
 	}
@@ -68,6 +75,7 @@ func (b *balanceCache) Get(account store.Account) (*big.Int, error) {
 		delete(b.cache, account)
 	}
 	getter := b.Getter
+	sets := b.sets
 	b.mu.Unlock()
 
 	// Miss (outside of cache lock)
@@ -75,6 +83,16 @@ func (b *balanceCache) Get(account store.Account) (*big.Int, error) {
 	if err != nil {
 		return nil, err
 	}
-	b.Set(account, val)
+
+	b.mu.Lock()
+	defer b.mu.Unlock()
+	if b.sets != sets {
+		// A value was stored while we were reading (a balance event of the
+		// contract): it is newer than what we read, keep it.
+		if r, ok := b.cache[account]; ok {
+			return r.value, nil
+		}
+	}
+	b.set(account, val)
 	return val, nil
 }
